@@ -86,6 +86,9 @@ impl Ctx {
         match r {
             Ok(v) => Some(v),
             Err(p) => {
+                if let Some(b) = p.downcast_ref::<crate::payload::HarnessBug>() {
+                    self.errors.push(format!("[harness] {}", b.0));
+                }
                 self.last.panicked = true;
                 self.panics.push(p);
                 None
@@ -140,7 +143,7 @@ impl Ctx {
                                 H::Sl(a) => H::Sl(a.clone()),
                                 H::SlH(a) => H::SlH(a.clone()),
                                 H::Arr(a) => H::Arr(a.clone()),
-                                _ => panic!("harness: Clone on wrong kind"),
+                                _ => crate::payload::harness_bug("Clone on wrong kind"),
                             }
                         })
                     }
@@ -153,7 +156,7 @@ impl Ctx {
             "Drop" => {
                 if let Some(h) = self.slots[s].take() {
                     self.call(move || match h {
-                        H::RawSl(_) => panic!("harness: Drop on raw"),
+                        H::RawSl(_) => crate::payload::harness_bug("Drop on raw"),
                         other => drop(other),
                     });
                 }
@@ -172,7 +175,7 @@ impl Ctx {
                             ("Unsize", H::Arr(a)) => H::Sl(a.unsize(Coercion::to_slice())),
                             (n, h) => {
                                 std::mem::forget(h);
-                                panic!("harness: {} on wrong kind", n)
+                                crate::payload::harness_bug(&format!("{} on wrong kind", n))
                             }
                         }
                     });
@@ -224,7 +227,7 @@ impl Ctx {
                                     w(&mut **u);
                                     true
                                 }
-                                _ => panic!("harness: GetMut on wrong kind"),
+                                _ => crate::payload::harness_bug("GetMut on wrong kind"),
                             }
                         })
                     }
